@@ -52,7 +52,15 @@ def cases(draw):
         c = [draw(st.sampled_from([1, 2, 3, 4, 8])) for _ in range(3)]
         if cubic:
             c = [c[0]] * 3
-        scales.append({"size": list(size), "chunk": c})
+        sc_ = {"size": list(size), "chunk": c}
+        if not cubic and "sharded" not in dst_kind and draw(
+                st.integers(0, 3)) == 0:
+            # a scale may list several chunk sizes: every listed grid is
+            # stored in the source and must be converted
+            c2 = [draw(st.sampled_from([1, 2, 3, 4, 8])) for _ in range(3)]
+            if c2 != c:
+                sc_["chunk2"] = c2
+        scales.append(sc_)
         size = [ds.ceil_div(s, 2) for s in size]
     dbits = [draw(st.integers(0, 2)),
              draw(st.sampled_from([0, 1, 2, 6, 7])),
@@ -102,7 +110,15 @@ def build_info(case, side):
             sharding=ds.sharding_dict(bits[0], bits[1], bits[2],
                                       case["shard_enc"], case["shard_enc"])
             if sharded else None))
+        if s.get("chunk2"):
+            scales[-1]["chunk_sizes"].append(list(s["chunk2"]))
     return ds.make_info(dt, case["channels"], scales, "segmentation")
+
+
+def grids(scale_info):
+    """One single-grid view of the scale per listed chunk size."""
+    return [dict(scale_info, chunk_sizes=[cs])
+            for cs in scale_info["chunk_sizes"]]
 
 
 def source_arrays(case):
@@ -141,7 +157,8 @@ def check_case(ctx, case):
         pio = ds.new_dataset(sinfo, acc_kind, sdir)
         arrays = source_arrays(case)
         for sc_, a in zip(sinfo["scales"], arrays):
-            ds.write_scale(pio, sc_, a)
+            for g in grids(sc_):
+                ds.write_scale(pio, g, a)
         ds.close_accessor(pio)
         before = ds.tree_snapshot(sdir)
         src_url = sdir
@@ -190,25 +207,27 @@ def check_case(ctx, case):
         if pio2.info["data_type"] != ddt:
             ctx.fail("destination info has data_type %s, expected %s" % (
                 pio2.info["data_type"], ddt))
-        for i, (sc_, a) in enumerate(zip(dinfo["scales"], arrays)):
-            try:
-                got = ds.read_scale(pio2, sc_, ddt, case["channels"])
-            except Exception as exc:
-                ctx.fail("scale %d of the destination cannot be read back: "
-                         "%s %s (%s)" % (i, type(exc).__name__, exc,
-                                         describe(case)))
-            want = a.astype(ddt)    # all generated conversions are exact
-            chk = np.array([sorted(dtype_ref.convert_value(v, ddt))[0]
-                            for v in a.reshape(-1)[:8].tolist()],
-                           dtype=ddt)
-            if not np.array_equal(chk, want.reshape(-1)[:8]):
-                raise AssertionError("harness: conversion is not exact")
-            if got.shape != want.shape or got.tobytes() != want.tobytes():
-                bad = np.argwhere(got != want)
-                ctx.fail("scale %d of the destination differs from the source"
-                         " at (c,z,y,x)=%s (%s)" % (
-                             i, bad[0].tolist() if len(bad) else "?",
-                             describe(case)))
+        for i, (sc0_, a) in enumerate(zip(dinfo["scales"], arrays)):
+            for sc_ in grids(sc0_):
+                try:
+                    got = ds.read_scale(pio2, sc_, ddt, case["channels"])
+                except Exception as exc:
+                    ctx.fail("scale %d (chunk size %s) of the destination cannot "
+                             "be read back: %s %s (%s)" % (
+                                 i, sc_["chunk_sizes"][0], type(exc).__name__,
+                                 exc, describe(case)))
+                want = a.astype(ddt)    # all generated conversions are exact
+                chk = np.array([sorted(dtype_ref.convert_value(v, ddt))[0]
+                                for v in a.reshape(-1)[:8].tolist()],
+                               dtype=ddt)
+                if not np.array_equal(chk, want.reshape(-1)[:8]):
+                    raise AssertionError("harness: conversion is not exact")
+                if got.shape != want.shape or got.tobytes() != want.tobytes():
+                    bad = np.argwhere(got != want)
+                    ctx.fail("scale %d of the destination differs from the source"
+                             " at (c,z,y,x)=%s (%s)" % (
+                                 i, bad[0].tolist() if len(bad) else "?",
+                                 describe(case)))
         return True
     finally:
         if srv is not None:
@@ -220,7 +239,8 @@ def describe(case):
     return "src %s %s %s -> dst %s %s %s, scales %s" % (
         case["src_kind"], case["src_dtype"], case["src_enc"],
         case["dst_kind"], case["dst_dtype"], case["dst_enc"],
-        [(s["size"], s["chunk"]) for s in case["scales"]])
+        [(s["size"], s["chunk"]) + ((s["chunk2"],) if s.get("chunk2")
+                                     else ()) for s in case["scales"]])
 
 
 def run(ctx, n):
